@@ -62,8 +62,14 @@ def run_case(ctx, shim, lens, k):
     rng = random.Random(k * 7919 + ctx.seed)
     work = tempfile.mkdtemp(prefix="io-", dir=ctx.scratch)
     trace = work + ".trace"
-    lines = [bytes([FILL[(k + i) % len(FILL)] if ln < 64 or i % 2 else rng.randrange(1, 256) if False else FILL[(k + i) % len(FILL)]]) * ln
-             for i, ln in enumerate(lens)]
+    # short lines are runs of one byte value; longer ones change from position to position (period 251), so that bytes written
+    # at the wrong place cannot go unnoticed; no NUL, no newline inside a line
+    def fill(i, ln):
+        b0 = FILL[(k + i) % len(FILL)]
+        if ln < 64 or i % 2:
+            return bytes([b0]) * ln
+        return bytes((11 if v == 10 else v) for v in (((b0 + 7 * j) % 251) + 1 for j in range(ln)))
+    lines = [fill(i, ln) for i, ln in enumerate(lens)]
     nonl = bool(lines) and (explicit[0] if explicit else k % 3 == 0)   # the input's last line lacks its newline
     data = b"\n".join(lines) + (b"" if nonl or not lines else b"\n")
     if lines and nonl and lines[-1] == b"":
@@ -87,6 +93,11 @@ def run_case(ctx, shim, lens, k):
     script = "e in\n%sw%s out\nq!\n" % (rangestr, force)
     env = {"PATH": os.environ.get("PATH", ""), "HOME": work, "NEATVI_VERIF_TRACE": trace, "LD_PRELOAD": shim,
            "NEATVI_SHIM_DIR": ctx.scratch}
+    if k % 3 == 1:        # one write call in the sequence returns a short count (half, or one byte): the rest must follow, in place
+        plan = work + ".plan"
+        with open(plan, "w") as pf:
+            pf.write("%d SHORT %d\n" % (2 + (k // 3) % 3, (k // 9) % 2))
+        env["NEATVI_SHIM_PLAN"] = plan
     env.update(ASAN_ENV)
     try:
         p = subprocess.run([os.path.join(ctx.build(), "vi"), "-s", "-e"], input=script.encode(), capture_output=True,
@@ -97,10 +108,11 @@ def run_case(ctx, shim, lens, k):
     have = open(os.path.join(work, "out"), "rb").read() if os.path.exists(os.path.join(work, "out")) else None
     recs = [json.loads(l) for l in open(trace)] if os.path.exists(trace) else []
     shutil.rmtree(work, True)
-    try:
-        os.remove(trace)
-    except OSError:
-        pass
+    for junk in (trace, work + ".plan"):
+        try:
+            os.remove(junk)
+        except OSError:
+            pass
     desc = {"line_lengths": lens if len(lens) < 12 else "%d lines" % len(lens), "range": [a, b], "input_ends_with_newline": not nonl,
             "previous_target_bytes": None if prev is None else len(prev), "expected_bytes": len(want)}
     if rc != 0 or not recs or recs[-1].get("ev") != "exit":
